@@ -6,6 +6,7 @@
 //! evaluated on hashes with sets and a breadth-first search.
 use radix_common::prelude::*;
 use radix_transactions::errors::*;
+use radix_transactions::manifest::ManifestValidationError;
 use radix_transactions::model::*;
 use radix_transactions::validation::*;
 use serde_json::json;
@@ -23,6 +24,8 @@ struct Intent {
     children: Vec<u64>,
     parent_yields: u64,
     child_yields: Vec<(u64, u64)>, // insertion-ordered, distinct keys
+    refs: u64,                     // what the stub's validate_intent records with the aggregation
+    fail: Option<u8>,              // and the other error it then returns (code), if any
 }
 #[derive(Clone, Debug)]
 struct Tree {
@@ -30,6 +33,8 @@ struct Tree {
     root: Intent,
     subs: Vec<(u64, Intent)>,
     max_depth: u64,
+    per_intent: u64,  // config.max_references_per_intent
+    total_limit: u64, // config.max_total_references
 }
 
 fn hash_of(id: u64) -> Hash {
@@ -54,6 +59,24 @@ fn ih_back(h: &IntentHash) -> IH {
     }
 }
 
+fn err_of(code: u8) -> IntentValidationError {
+    match code {
+        0 => IntentValidationError::HeaderValidationError(HeaderValidationError::InvalidEpochRange),
+        1 => IntentValidationError::HeaderValidationError(HeaderValidationError::InvalidNetwork),
+        2 => IntentValidationError::InvalidMessage(InvalidMessageError::NoDecryptors),
+        _ => IntentValidationError::ManifestValidationError(ManifestValidationError::TooManyInstructions),
+    }
+}
+fn code_of(e: &IntentValidationError) -> Option<String> {
+    Some(match e {
+        IntentValidationError::HeaderValidationError(HeaderValidationError::InvalidEpochRange) => "(IntentFailed 0)".into(),
+        IntentValidationError::HeaderValidationError(HeaderValidationError::InvalidNetwork) => "(IntentFailed 1)".into(),
+        IntentValidationError::InvalidMessage(InvalidMessageError::NoDecryptors) => "(IntentFailed 2)".into(),
+        IntentValidationError::ManifestValidationError(ManifestValidationError::TooManyInstructions) => "(IntentFailed 3)".into(),
+        IntentValidationError::TooManyReferences { total, limit } => format!("(TooManyReferences {} {})", total, limit),
+        _ => return None,
+    })
+}
 // ---- the stub handed to the implementation -------------------------------------------------------
 struct StubIntent {
     hash: IntentHash,
@@ -68,9 +91,13 @@ impl IntentStructure for StubIntent {
     }
     fn validate_intent(
         &self,
-        _validator: &TransactionValidator,
-        _aggregation: &mut AcrossIntentAggregation,
+        validator: &TransactionValidator,
+        aggregation: &mut AcrossIntentAggregation,
     ) -> Result<ManifestYieldSummary, IntentValidationError> {
+        aggregation.record_reference_count(self.intent.refs as usize, validator.config())?;
+        if let Some(code) = self.intent.fail {
+            return Err(err_of(code));
+        }
         Ok(ManifestYieldSummary {
             parent_yields: self.intent.parent_yields as usize,
             child_yields: self
@@ -109,6 +136,7 @@ impl IntentTreeStructure for StubTree {
 enum Out {
     Accept(Vec<usize>, Vec<IH>, Vec<u64>, Vec<Vec<usize>>),
     Reject(String, Option<(usize, u64)>),
+    Intent(String, String), // location and error as Coq terms
     Panic,
     Unexpected(String),
 }
@@ -116,6 +144,8 @@ enum Out {
 fn run_impl(t: &Tree) -> Out {
     let config = TransactionValidationConfig {
         max_subintent_depth: t.max_depth as usize,
+        max_references_per_intent: t.per_intent as usize,
+        max_total_references: t.total_limit as usize,
         ..TransactionValidationConfig::latest()
     };
     let validator = TransactionValidator::new_with_static_config_network_agnostic(config);
@@ -167,6 +197,18 @@ fn run_impl(t: &Tree) -> Out {
                 SubintentStructureError::MismatchingYieldChildAndYieldParentCountsForSubintent => "MismatchingYield".to_string(),
             };
             Out::Reject(k, l)
+        }
+        Ok(Err(TransactionValidationError::IntentValidationError(loc, e))) => {
+            let l = match loc {
+                TransactionValidationErrorLocation::RootTransactionIntent(_) | TransactionValidationErrorLocation::RootSubintent(_) => "FRoot".to_string(),
+                TransactionValidationErrorLocation::NonRootSubintent(i, h) => format!("(FNonRoot {}%nat {})", i.0, id_of(h.as_hash())),
+                TransactionValidationErrorLocation::AcrossTransaction => "FAcross".to_string(),
+                other => return Out::Unexpected(format!("location {:?}", other)),
+            };
+            match code_of(&e) {
+                Some(c) => Out::Intent(l, c),
+                None => Out::Unexpected(format!("{:?}", e)),
+            }
         }
         Ok(Err(other)) => Out::Unexpected(format!("{:?}", other)),
     }
@@ -261,6 +303,8 @@ fn bt(root: IH, depth: u64, rootch: &[u64], subs: &[(u64, &[u64])]) -> Tree {
             children: ch.to_vec(),
             parent_yields: me_py,
             child_yields: ch.iter().filter(|c| seen.insert(**c)).map(|c| (*c, *c % 3)).collect(),
+            refs: 0,
+            fail: None,
         }
     };
     Tree {
@@ -268,6 +312,8 @@ fn bt(root: IH, depth: u64, rootch: &[u64], subs: &[(u64, &[u64])]) -> Tree {
         root: mk(if matches!(root, IH::Sub(_)) { 1 } else { 0 }, rootch),
         subs: subs.iter().map(|(h, ch)| (*h, mk(*h % 3, ch))).collect(),
         max_depth: depth,
+        per_intent: u64::MAX,
+        total_limit: u64::MAX,
     }
 }
 fn out_tag(o: &Out) -> String {
@@ -275,6 +321,7 @@ fn out_tag(o: &Out) -> String {
         Out::Accept(..) => "accept".into(),
         Out::Panic => "panic".into(),
         Out::Unexpected(_) => "unexpected".into(),
+        Out::Intent(l, e) => format!("{} {}", l, e),
         Out::Reject(k, l) => {
             let k = k.trim_start_matches('(').trim_end_matches(')');
             let short = if k.starts_with("ChildSubintentNotIncluded") {
@@ -389,6 +436,43 @@ fn boundary_family() -> Vec<(&'static str, Tree, &'static str)> {
     v.push(("tx_one_root_declares_twice", bt(IH::Tx(1), 3, &[1, 1], &[(1, &[])]), "MultipleParents@0"));
     v.push(("subintent_zero_as_parent", bt(tx(), 3, &[0, 7], &[(0, &[5]), (5, &[]), (7, &[5])]), "MultipleParents@1"));
     v.push(("subintent_zero_leaf", bt(tx(), 3, &[0], &[(0, &[])]), "accept"));
+    // ---- intents whose own validation fails / reference totals (validate_intents_and_structure around the structure check)
+    // base: root -> {3, 1}; 3 -> {2}; listed 1, 2, 3
+    let base = || bt(tx(), 3, &[3, 1], &[(1, &[]), (2, &[]), (3, &[2])]);
+    let with = |f: &dyn Fn(&mut Tree)| {
+        let mut t = base();
+        t.per_intent = 4;
+        t.total_limit = 9;
+        f(&mut t);
+        t
+    };
+    v.push(("full_all_pass", with(&|_| {}), "accept"));
+    v.push(("full_root_fails", with(&|t| t.root.fail = Some(0)), "FRoot (IntentFailed 0)"));
+    v.push(("full_partial_root_fails", { let mut t = with(&|t| t.root.fail = Some(1)); t.root_hash = sb(); t }, "FRoot (IntentFailed 1)"));
+    v.push(("full_first_sub_fails", with(&|t| t.subs[0].1.fail = Some(2)), "(FNonRoot 0%nat 1) (IntentFailed 2)"));
+    v.push(("full_last_sub_fails", with(&|t| t.subs[2].1.fail = Some(3)), "(FNonRoot 2%nat 3) (IntentFailed 3)"));
+    v.push(("full_two_subs_fail_list_order", with(&|t| { t.subs[2].1.fail = Some(3); t.subs[1].1.fail = Some(0); }), "(FNonRoot 1%nat 2) (IntentFailed 0)"));
+    v.push(("full_root_before_sub", with(&|t| { t.root.fail = Some(1); t.subs[0].1.fail = Some(0); }), "FRoot (IntentFailed 1)"));
+    v.push(("full_structure_before_intent", { let mut t = with(&|t| t.root.fail = Some(0)); t.subs.push((9, bt(tx(), 3, &[], &[]).root)); t }, "NotReachable@3"));
+    v.push(("full_intent_before_yield", with(&|t| { t.subs[1].1.fail = Some(0); t.root.child_yields[0].1 += 1; }), "(FNonRoot 1%nat 2) (IntentFailed 0)"));
+    v.push(("full_refs_per_intent_at_limit", with(&|t| t.subs[1].1.refs = 4), "accept"));
+    v.push(("full_refs_per_intent_over_root", with(&|t| t.root.refs = 5), "FRoot (TooManyReferences 5 4)"));
+    v.push(("full_refs_per_intent_over_last_sub", with(&|t| t.subs[2].1.refs = 5), "(FNonRoot 2%nat 3) (TooManyReferences 5 4)"));
+    v.push(("full_refs_over_before_fail_code", with(&|t| { t.subs[0].1.refs = 5; t.subs[0].1.fail = Some(0); }), "(FNonRoot 0%nat 1) (TooManyReferences 5 4)"));
+    v.push(("full_refs_total_at_limit", with(&|t| { t.root.refs = 4; t.subs[0].1.refs = 3; t.subs[2].1.refs = 2; }), "accept"));
+    v.push(("full_refs_total_over", with(&|t| { t.root.refs = 4; t.subs[0].1.refs = 3; t.subs[2].1.refs = 3; }), "FAcross (TooManyReferences 10 9)"));
+    v.push(("full_refs_total_over_by_last", with(&|t| { t.root.refs = 3; t.subs[0].1.refs = 3; t.subs[1].1.refs = 3; t.subs[2].1.refs = 1; }), "FAcross (TooManyReferences 10 9)"));
+    v.push(("full_total_before_yield", with(&|t| { t.root.refs = 4; t.subs[0].1.refs = 3; t.subs[2].1.refs = 3; t.root.child_yields[0].1 += 1; }), "FAcross (TooManyReferences 10 9)"));
+    v.push(("full_fail_before_total", with(&|t| { t.root.refs = 4; t.subs[0].1.refs = 4; t.subs[1].1.refs = 4; t.subs[2].1.fail = Some(1); }), "(FNonRoot 2%nat 3) (IntentFailed 1)"));
+    v.push(("full_zero_limits_zero_refs", with(&|t| { t.per_intent = 0; t.total_limit = 0; }), "accept"));
+    v.push(("full_zero_per_intent_one_ref", with(&|t| { t.per_intent = 0; t.subs[1].1.refs = 1; }), "(FNonRoot 1%nat 2) (TooManyReferences 1 0)"));
+    // usize::saturating_add: the total sticks at usize::MAX
+    let m = u64::MAX;
+    v.push(("full_saturation_exact_max", with(&|t| { t.per_intent = m; t.total_limit = m; t.root.refs = m - 1; t.subs[0].1.refs = 1; }), "accept"));
+    v.push(("full_saturation_over_max_accepted", with(&|t| { t.per_intent = m; t.total_limit = m; t.root.refs = m; t.subs[0].1.refs = 5; }), "accept"));
+    v.push(("full_saturation_twice", with(&|t| { t.per_intent = m; t.total_limit = m; t.root.refs = m - 1; t.subs[0].1.refs = 2; t.subs[2].1.refs = m; }), "accept"));
+    v.push(("full_saturation_limit_below_max", with(&|t| { t.per_intent = m; t.total_limit = m - 1; t.root.refs = m - 1; t.subs[0].1.refs = 7; }), "FAcross (TooManyReferences 18446744073709551615 18446744073709551614)"));
+    v.push(("full_below_saturation_at_limit", with(&|t| { t.per_intent = m; t.total_limit = m - 1; t.root.refs = m - 2; t.subs[0].1.refs = 1; }), "accept"));
     // outside the hypotheses: root listed among the subintents, summary lacking a declared child
     v.push(("root_collides_with_subintent", bt(IH::Sub(1), 3, &[1], &[(1, &[])]), "panic"));
     let mut t = bt(tx(), 3, &[1], &[(1, &[])]);
@@ -463,6 +547,8 @@ fn gen_tree(rng: &mut Rng, tags: &mut Vec<&'static str>) -> Tree {
             parent_yields: if me == 0 { 0 } else { pyield[&me] },
             child_yields: ch.iter().map(|c| (*c, pyield[c])).collect(),
             children: ch,
+            refs: 0,
+            fail: None,
         }
     };
     let mut order = ids.clone();
@@ -472,7 +558,34 @@ fn gen_tree(rng: &mut Rng, tags: &mut Vec<&'static str>) -> Tree {
         root: mk(0, &children, &pyield),
         subs: order.iter().map(|id| (*id, mk(*id, &children, &pyield))).collect(),
         max_depth,
+        per_intent: u64::MAX,
+        total_limit: u64::MAX,
     };
+    // what the intents' own validation does: mostly passes with a few references each
+    if rng.chance(2, 3) {
+        t.per_intent = rng.range(2, 6);
+        t.total_limit = rng.range(4, 20);
+        let n_int = t.subs.len() + 1;
+        for k in 0..n_int {
+            let per = t.per_intent;
+            let i = intent_mut(&mut t, k);
+            i.refs = match rng.below(12) {
+                0 => per + 1,
+                1 => per,
+                _ => rng.range(0, 2),
+            };
+            if rng.chance(1, 12) {
+                i.fail = Some(rng.below(4) as u8);
+            }
+        }
+        if rng.chance(1, 10) {
+            // around usize::MAX: saturating_add
+            t.per_intent = u64::MAX;
+            t.total_limit = u64::MAX - rng.below(2);
+            t.root.refs = u64::MAX - rng.below(3);
+        }
+        tags.push("verdicts");
+    }
     if root_is_sub {
         t.root.parent_yields = rng.range(0, 2);
     }
@@ -693,24 +806,38 @@ fn tree_coq(t: &Tree) -> String {
 fn out_coq(o: &Out) -> String {
     match o {
         Out::Accept(r, p, d, c) => format!(
-            "(Accept {} {} {} {})",
+            "(FStructure (Accept {} {} {} {}))",
             nat_list(r),
             coq_list(p.iter().map(ih_coq)),
             coq_list(d.iter().map(|x| x.to_string())),
             coq_list(c.iter().map(|x| nat_list(x)))
         ),
-        Out::Reject(k, Some((i, h))) => format!("(Reject {} (NonRoot {}%nat {}))", k, i, h),
-        Out::Reject(k, None) => format!("(Reject {} Unlocatable)", k),
-        Out::Panic => "Panic".to_string(),
+        Out::Reject(k, Some((i, h))) => format!("(FStructure (Reject {} (NonRoot {}%nat {})))", k, i, h),
+        Out::Reject(k, None) => format!("(FStructure (Reject {} Unlocatable))", k),
+        Out::Intent(l, e) => format!("(FIntent {} {})", l, e),
+        Out::Panic => "(FStructure Panic)".to_string(),
         // never equal to a model outcome of a terminating run: shows up as a disagreement
-        Out::Unexpected(_) => "OutOfFuel".to_string(),
+        Out::Unexpected(_) => "(FStructure OutOfFuel)".to_string(),
     }
 }
+fn verdict_coq(i: &Intent) -> String {
+    format!("(Build_iverdict {} {})", i.refs, match i.fail { Some(c) => format!("(Some {})", c), None => "None".to_string() })
+}
+fn full_coq(t: &Tree) -> String {
+    format!(
+        "(Build_full {} {} {} {} {})",
+        tree_coq(t),
+        verdict_coq(&t.root),
+        coq_list(t.subs.iter().map(|(_, i)| verdict_coq(i))),
+        t.per_intent,
+        t.total_limit
+    )
+}
 fn tree_json(t: &Tree) -> serde_json::Value {
-    let ij = |i: &Intent| json!({"children": i.children, "parent_yields": i.parent_yields, "child_yields": i.child_yields});
+    let ij = |i: &Intent| json!({"children": i.children, "parent_yields": i.parent_yields, "child_yields": i.child_yields, "refs": i.refs.to_string(), "fail": i.fail});
     json!({"root_hash": format!("{:?}", t.root_hash), "root": ij(&t.root),
            "subs": t.subs.iter().map(|(h, i)| json!({"hash": h, "intent": ij(i)})).collect::<Vec<_>>(),
-           "max_subintent_depth": t.max_depth})
+           "max_subintent_depth": t.max_depth, "max_references_per_intent": t.per_intent.to_string(), "max_total_references": t.total_limit.to_string()})
 }
 
 fn main() {
@@ -758,6 +885,11 @@ fn main() {
         let kind = match &out {
             Out::Accept(..) => "accept".to_string(),
             Out::Reject(k, _) => format!("reject_{}", k.trim_start_matches('(').split(' ').next().unwrap()),
+            Out::Intent(l, e) => format!(
+                "intent_{}_{}",
+                l.trim_start_matches('(').split(' ').next().unwrap(),
+                e.trim_start_matches('(').split(' ').next().unwrap()
+            ),
             Out::Panic => "panic".to_string(),
             Out::Unexpected(_) => "unexpected".to_string(),
         };
@@ -775,10 +907,23 @@ fn main() {
             Some(sh) => {
                 let wf = sh.well_formed();
                 report.count(if wf { "oracle_well_formed" } else { "oracle_ill_formed" });
+                // the intents' own verdicts and the (saturating) reference total
+                let all: Vec<&Intent> = std::iter::once(&t.root).chain(t.subs.iter().map(|s| &s.1)).collect();
+                let intents_ok = all.iter().all(|x| x.refs <= t.per_intent && x.fail.is_none());
+                let total = all.iter().map(|x| x.refs as u128).sum::<u128>().min(u64::MAX as u128);
+                let refs_ok = total <= t.total_limit as u128;
                 match &out {
+                    Out::Accept(..) if !(intents_ok && refs_ok) => report.oracle_failure(
+                        i, "", "accepted although an intent's own validation fails or the reference total is over its limit", tree_json(&t)),
+                    Out::Intent(l, e) if intents_ok && refs_ok => report.oracle_failure(
+                        i, "", &format!("rejected with {} {} although every intent passes and the total is within its limit", l, e), tree_json(&t)),
+                    Out::Intent(..) if !(sh.distinct && sh.children_present && sh.one_parent && sh.all_reachable && sh.depth_ok) => report.oracle_failure(
+                        i, "", "intent error reported although the structure is not well formed (structure errors come first)", tree_json(&t)),
+                    Out::Reject(k, _) if k == "MismatchingYield" && !(intents_ok && refs_ok) => report.oracle_failure(
+                        i, "", "yield mismatch reported although an intent fails or the reference total is over (those come first)", tree_json(&t)),
                     Out::Accept(..) if !wf => report.oracle_failure(
                         i, "", &format!("accepted but not a well-formed tree: {:?}", sh), tree_json(&t)),
-                    Out::Reject(k, _) if wf => report.oracle_failure(
+                    Out::Reject(k, _) if wf && intents_ok && refs_ok => report.oracle_failure(
                         i, "", &format!("well-formed tree rejected with {}", k), tree_json(&t)),
                     Out::Panic => report.oracle_failure(i, "", "panic inside the hypotheses", tree_json(&t)),
                     _ => {}
@@ -788,7 +933,7 @@ fn main() {
         if i < 3 {
             report.sample(json!({"tree": tree_json(&t), "out": out_coq(&out), "mutations": tags}));
         }
-        cw.push(format!("({}, {})", tree_coq(&t), out_coq(&out)));
+        cw.push(format!("({}, {})", full_coq(&t), out_coq(&out)));
     }
     let n = args.cases as u64;
     report.floor("out_accept", n / 10);
@@ -799,6 +944,9 @@ fn main() {
     report.floor("out_reject_MismatchingYield", n / 100);
     report.floor("out_reject_ChildSubintentNotIncluded", n / 200);
     report.floor("out_reject_DuplicateSubintent", n / 200);
+    for k in ["out_intent_FRoot_IntentFailed", "out_intent_FNonRoot_IntentFailed", "out_intent_FNonRoot_TooManyReferences", "out_intent_FAcross_TooManyReferences"] {
+        report.floor(k, n / 200);
+    }
     cw.write(&args.out, args.shards).unwrap();
     report.write(&args.out).unwrap();
 }
